@@ -96,6 +96,8 @@ var c10Named = []struct {
 	{"SELECT `n[(2:1)]` AS c FROM t", false},
 	{"SELECT `n[(-1:9)]` AS c FROM t", false},
 	{"SELECT `n::::[0]` AS c FROM t", false},
+	{"SELECT * FROM t x PARALLEL JOIN u y ON x.id <= y.id AND ONCE.fid(1, TRUE)", false},
+	{"SELECT * FROM t x PARALLEL LEFT JOIN u y ON x.id != y.id AND ONCE.fx(1, TRUE)", false},
 	{"SELECT id, SETVAR('k', id) FROM t", false},
 	{"SELECT id, GETVAR('k') AS g, SETVAR('k', 1), GETVAR('k') AS h FROM t", false},
 	{"SELECT * FROM t x PARALLEL JOIN u y ON x.id = y.id AND SETVAR('k', 1)", false},
@@ -333,7 +335,8 @@ func genC10(t *rapid.T) *Bundle {
 		op.NoHandlers = rapid.Bool().Draw(t, "no_handlers")
 	case "pjoin":
 		jt := rapid.SampledFrom([]string{"PARALLEL JOIN", "PARALLEL LEFT JOIN", "PARALLEL RIGHT JOIN", "PARALLEL STRAIGHT_JOIN", "PARALLEL HASH_JOIN", "PARALLEL LEFT HASH_JOIN", "JOIN", "LEFT JOIN"}).Draw(t, "jt")
-		on := rapid.SampledFrom([]string{"x.f AND y.g", "x.id = y.id AND x.f", "x.a + 1 > y.id", "x.id < y.id OR x.f", "x.s = y.b", "x.id = y.id", "x.o = y.id", "x.n = y.id", "x.id >= y.id AND fid(1, x.a) > 0", "x.f", "x.id = y.id AND SETVAR('k', 1)", "x.id < y.id AND SETVAR('k', x.id)"}).Draw(t, "on")
+		on := rapid.SampledFrom([]string{"x.f AND y.g", "x.id = y.id AND x.f", "x.a + 1 > y.id", "x.id < y.id OR x.f", "x.s = y.b", "x.id = y.id", "x.o = y.id", "x.n = y.id", "x.id >= y.id AND fid(1, x.a) > 0", "x.f", "x.id = y.id AND SETVAR('k', 1)", "x.id < y.id AND SETVAR('k', x.id)",
+			"x.id <= y.id AND ONCE.fid(1, TRUE)", "x.id != y.id AND ONCE.fid(1, x.f)", "x.id >= y.id AND fid(1, TRUE)", "x.id < y.id AND ASYNC.fid(1, TRUE)"}).Draw(t, "on")
 		op.Query = fmt.Sprintf("SELECT * FROM t x %s u y ON %s", jt, on)
 		// corrupt one row so that ON hits a type error on that row only
 		rows := doc["t"].([]any)
@@ -343,7 +346,9 @@ func genC10(t *rapid.T) *Bundle {
 			rows[j].(map[string]any)[col] = rapid.SampledFrom([]any{"oops", map[string]any{"not": "scalar"}, nil, []any{1.0}}).Draw(t, "bad_val")
 		}
 		if strings.Contains(on, "fid(") {
-			stubs.Faults = []casefmt.Fault{{ID: 1, K: rapid.IntRange(1, 4).Draw(t, "fk"), Kind: rapid.SampledFrom([]string{"error", "panic"}).Draw(t, "fkind")}}
+			stubs.Faults = []casefmt.Fault{{ID: 1, K: rapid.IntRange(1, 4).Draw(t, "fk"), Kind: rapid.SampledFrom([]string{"error", "panic", "panic_str"}).Draw(t, "fkind")}}
+			// a slow call keeps its siblings waiting while it fails
+			stubs.Lat = []casefmt.LatRule{{ID: 1, Call: -1, Ns: rapid.SampledFrom(latencyChoices).Draw(t, "flat")}}
 		}
 		exp.Race = strings.HasPrefix(jt, "PARALLEL")
 		// fresh column names make the selector cache cold for the workers
@@ -511,6 +516,18 @@ func corpusC10() []*Bundle {
 			c := oneClientCase("C10", casefmt.SimConfig{Strategy: "walk", Seed: 2, WalkP: 0.3, MapPolicy: "sorted", StepBudget: 2000000}, doc,
 				casefmt.Op{Doc: 0, Vars: -1, Query: q, Idiomatic: nc.idiomatic, Wrapped: wrapped, ExecTwice: true}, c10FollowUp(nil))
 			out = append(out, &Bundle{Prop: "C10", Kind: "named", Case: c, Expect: mustJSON(c10Expect{Kind: "named", Query: q}), Tags: []string{"corpus", "kind:named"}})
+			if strings.Contains(q, "ONCE.f") && !wrapped {
+				// the single call all workers share fails (slowly) while its siblings wait for it
+				for _, fk := range []string{"error", "panic", "panic_str"} {
+					for _, strat := range []string{"walk", "sync", "pct"} {
+						fc := c
+						fc.Sim.Strategy, fc.Sim.ChangePoints = strat, []int64{3, 40}
+						fc.Stubs.Faults = []casefmt.Fault{{ID: 1, K: 1, Kind: fk}}
+						fc.Stubs.Lat = []casefmt.LatRule{{ID: 1, Call: -1, Ns: 1000000}}
+						out = append(out, &Bundle{Prop: "C10", Kind: "named", Case: fc, Expect: mustJSON(c10Expect{Kind: "named", Query: q, Race: true}), Tags: []string{"corpus", "kind:named", "fault:" + fk}})
+					}
+				}
+			}
 		}
 	}
 	for _, q := range c10NamedPostgres {
